@@ -102,17 +102,42 @@ def check_node(n, problems, parent_kind):
 ctx = new_ctx({"a": "A{{{1|}}}", "h": "==H==\n{{{1|}}}"}, noisy=True)
 
 
+import signal
+
+
+class _Timeout(BaseException):
+    pass
+
+
+def _alarm(*a):
+    raise _Timeout()
+
+
+signal.signal(signal.SIGALRM, _alarm)
+N_TIMEOUTS = [0]
+
+
 def run(text, kw, tag):
     global evaluations
+    if N_TIMEOUTS[0] >= 3:
+        return          # non-termination established: do not wait for every further document
     evaluations += 1
     current_doc["text"] = text
     ctx.start_page("Tt")
+    signal.alarm(20)
     try:
         with quiet_stdout():
             root = ctx.parse(text, **kw)
+    except _Timeout:
+        N_TIMEOUTS[0] += 1
+        fail("parser:Wtp.parse#terminates", "parse did not return within 20 s", {"text": text[:200], "options": kw, "source": tag},
+             "timeout")
+        return
     except RecursionError:
+        signal.alarm(0)
         return
     except Exception as ex:
+        signal.alarm(0)
         if type(ex).__name__ == "LuaError" and "ustring" in str(ex):
             return      # the Scribunto libraries are absent offline: #invoke cannot run (environment, not a defect)
         import traceback
@@ -121,6 +146,7 @@ def run(text, kw, tag):
         fail("parser:Wtp.parse#never-raises", f"{type(ex).__name__}: {str(ex)[:80]} in {inner[-1].name if inner else '?'}",
              {"text": text[:200], "options": kw, "source": tag}, f"{type(ex).__name__}@{inner[-1].name if inner else '?'}")
         return
+    signal.alarm(0)
     problems = []
     if not isinstance(root, WikiNode) or root.kind != NodeKind.ROOT:
         problems.append("result is not a ROOT node")
